@@ -149,5 +149,6 @@ def finish_args(c, extra_assumptions=()):
     c.assumptions = ["boost::lexical_cast and the C++ standard library behave as documented",
                      "generated inputs stay inside the modelled language (no control characters '(' ')' '!', no dash inside a "
                      "group of short keys, no value mode 'command'); outside it the specification leaves the outcome open",
-                     "destination kinds: bool, int, std::string, std::optional<int>, vector/set/list/deque<int>, vector<string>, int[3]"] + list(extra_assumptions)
+                     "destination kinds: bool, int, double, std::string, std::optional<int>, LevelCounter, the containers listed in DESIGN 3, value "
+                     "arguments (DEST_VAR_VALUE on int) and pair arguments (DEST_PAIR with an int as second variable)"] + list(extra_assumptions)
     return c.finish()
